@@ -350,14 +350,17 @@ fn knn_with<D: Distance<Vec<f64>, f64>>(case: &KnnCase, dist: D, ctx: &mut Ctx) 
         catch(|| {
             // builder calls in two orders (a setter that rebuilds from the defaults would lose earlier settings)
             let params = if case.data.len() % 2 == 0 { KNNClassifierParameters::default().with_k(k).with_algorithm(alg.clone()).with_weight(w.clone()).with_distance(dist.clone()) } else { KNNClassifierParameters::default().with_distance(dist.clone()).with_weight(w.clone()).with_algorithm(alg.clone()).with_k(k) };
-            let m = KNNClassifier::fit(&x, &case.y, params).map_err(|e| format!("fit: {}", e))?;
-            m.predict(&q).map_err(|e| format!("predict: {}", e))
+            // inherent entry points, or (every other case) the generic traits of smartcore::api
+            let via_trait = (case.data.len() / 2) % 2 == 1;
+            let m: KNNClassifier<f64, D> = if via_trait { sup_fit(&x, &case.y, params) } else { KNNClassifier::fit(&x, &case.y, params) }.map_err(|e| format!("fit: {}", e))?;
+            if via_trait { tr_predict(&m, &q) } else { m.predict(&q) }.map_err(|e| format!("predict: {}", e))
         })
     } else {
         catch(|| {
             let params = if case.data.len() % 2 == 0 { KNNRegressorParameters::default().with_k(k).with_algorithm(alg.clone()).with_weight(w.clone()).with_distance(dist.clone()) } else { KNNRegressorParameters::default().with_distance(dist.clone()).with_weight(w.clone()).with_algorithm(alg.clone()).with_k(k) };
-            let m = KNNRegressor::fit(&x, &case.y, params).map_err(|e| format!("fit: {}", e))?;
-            m.predict(&q).map_err(|e| format!("predict: {}", e))
+            let via_trait = (case.data.len() / 2) % 2 == 1;
+            let m: KNNRegressor<f64, D> = if via_trait { sup_fit(&x, &case.y, params) } else { KNNRegressor::fit(&x, &case.y, params) }.map_err(|e| format!("fit: {}", e))?;
+            if via_trait { tr_predict(&m, &q) } else { m.predict(&q) }.map_err(|e| format!("predict: {}", e))
         })
     };
     if k > n {
